@@ -198,4 +198,52 @@ func TestVerifRPQ(t *testing.T) {
 		}
 		rpqApply(w, q, "gaps", 0)
 	}
+
+	// word-edge runs: a hole, then long runs of consecutive TSNs pushed in order, with the gap blocks taken after every
+	// push whose TSN lies next to a 64-bit word edge of the bitmap (and after the last one).  Whole bitmap words become
+	// all-ones; block ends fall on bit 63 / bit 0.  Seeded change C05-3 (fast path over full words) is only visible here.
+	for c := 0; c < nCases/4+8; c++ {
+		maxOff := uint32(64 * (4 + rng.Intn(40)))
+		if rng.Intn(3) == 0 {
+			maxOff = getMaxTSNOffset(bufSizes[rng.Intn(len(bufSizes))])
+		}
+		q := newReceivePayloadQueue(maxOff)
+		fmt.Fprintf(w, "case w%d\nnew %d\n", c, maxOff)
+		rpqDump(w, q)
+		var cum uint32
+		switch rng.Intn(3) {
+		case 0:
+			cum = uint32(0) - uint32(rng.Intn(400)) // run crosses the 2^32 wrap
+		case 1:
+			cum = uint32(rng.Intn(4)*64) + uint32(rng.Intn(3)) - 1 // next to a word edge
+		default:
+			cum = rng.Uint32()
+		}
+		rpqApply(w, q, "init", cum)
+		pos := cum + 1 + uint32(1+rng.Intn(3)) // leave 1..3 TSNs missing
+		limit := cum + q.maxTSNOffset
+		for seg := 0; seg < 1+rng.Intn(3) && sna32LT(pos, limit); seg++ {
+			runLen := 60 + rng.Intn(150)
+			for i := 0; i < runLen && sna32LTE(pos, limit); i++ {
+				rpqApply(w, q, "push", pos)
+				if m := pos % 64; m >= 62 || m <= 1 || i == runLen-1 {
+					rpqApply(w, q, "gaps", 0)
+				}
+				pos++
+			}
+			pos += uint32(1 + rng.Intn(70)) // next hole
+		}
+		rpqApply(w, q, "gaps", 0)
+		// fill the first hole: the cumulative point runs over the full words
+		for x := cum + 1; sna32LT(x, cum+5); x++ {
+			rpqApply(w, q, "push", x)
+		}
+		for q.pop(false) {
+			fmt.Fprintf(w, "pop 0 1\n")
+			rpqDump(w, q)
+		}
+		fmt.Fprintf(w, "pop 0 0\n")
+		rpqDump(w, q)
+		rpqApply(w, q, "gaps", 0)
+	}
 }
